@@ -61,6 +61,7 @@ func checkC02(r *Run) {
 	r.Stats["packages"] = len(p.Repo)
 	r.Rule("C02.R1.meta", "meta.json is never opened with a write/create/truncate flag and is only the destination of Rename(meta.json.tmp, meta.json); in meta.Create that rename runs only after EncodeStream and Close of the temp file succeeded", 4)
 	r.Rule("C02.R2.order", "in the closure returned by indexPersist.prepare, Truncate precedes WriteAt on every path, both with the persist mutex held; the truncate length and the written bytes come from the same pointer snapshot; index.domain is opened only in openPointerPersist", 4)
+	r.Rule("C02.R2.start", "every call of indexPersist.prepare starts the rewrite at the index's lowest dirty position (idx.persistHead) or at 0: commits with a lazy persist interval leave lower positions dirty on disk, so rewriting only a tail leaves a stale prefix next to it", 5)
 	r.Rule("C02.R2.codec", "pointerCodec.encode and decode lay the five pointer fields out at the same byte ranges, the ranges tile [0, pointerByteSize) exactly", 3)
 	r.Rule("C02.R3.provenance", "composite literals of domain.pointer occur only in Writer.commit, DB.Delete and pointerCodec.decode; in commit offset/size come from the tracked writer's Offset()/Len(); in Delete from fields of existing pointers and the clamped offsets", 5)
 	r.Rule("C02.R4.delete", "channel deletion: removeChannel, then Rename(dir, dir+'-DELETE-'+n) under DB.mu, then Remove of exactly that renamed name; crash-intermediate names are not accepted by the open-time scanners", 6)
@@ -129,6 +130,7 @@ func checkC02(r *Run) {
 	}
 	checkMetaCreate(r, p, metaName)
 	checkPrepare(r, p, la)
+	checkPrepareStart(r, p)
 	checkPointerCodec(r, p)
 	checkPointerProvenance(r, p)
 	checkChannelDelete(r, p, la)
@@ -858,4 +860,29 @@ func checkNameDisjointness(r *Run, p *Prog, metaName, metaTmp string) {
 		}
 	}
 	r.Ob("C02.R4.delete", "GC intermediate names do not end in the domain file extension", "cesium/internal/domain/delete.go", okSuf, fmt.Sprintf("suffixes %q vs extension %q: scanUnopenedFiles probes exactly fileKeyToName(i)", suffixes, ext))
+}
+
+// checkPrepareStart: the start argument of every prepare call is the persistHead field of
+// the index or the constant 0.
+func checkPrepareStart(r *Run, p *Prog) {
+	prepare := p.Func(domainPkg, "indexPersist", "prepare")
+	head := p.FieldOf(domainPkg, "index", "persistHead")
+	if prepare == nil || head == nil {
+		r.Undecide("C02.R2: prepare / index.persistHead not resolved")
+		return
+	}
+	for _, cs := range p.AllCalls(func(o types.Object, _ *ast.CallExpr) bool { return IsFunc(o, prepare) }) {
+		if len(cs.Call.Args) != 1 {
+			continue
+		}
+		arg := ast.Unparen(cs.Call.Args[0])
+		ok := false
+		if v, isConst := constInt(cs.Fn, arg); isConst && v == 0 {
+			ok = true
+		}
+		if sel, isSel := arg.(*ast.SelectorExpr); isSel && fieldVar(cs.Fn, sel) == head {
+			ok = true
+		}
+		r.Ob("C02.R2.start", "prepare start in "+cs.Fn.Top().Name, p.Position(cs.Call.Pos()), ok, "start argument is "+types.ExprString(arg)+"; must be idx.persistHead or 0")
+	}
 }
